@@ -66,5 +66,7 @@ pub use acceptor::{AcceptError, Acceptor};
 pub use aldrin_core as core;
 #[cfg(feature = "statistics")]
 pub use broker::BrokerStatistics;
+#[cfg(feature = "verif-hooks")]
+pub use broker::VerifSnapshot;
 pub use broker::{Broker, BrokerHandle, BrokerShutdown};
 pub use conn::{Connection, ConnectionError, ConnectionHandle};
